@@ -685,3 +685,257 @@ Proof.
   inversion Ho; subst. destruct x; try contradiction.
   cbn [map last ds_of ds_names]. destruct names; [congruence|reflexivity].
 Qed.
+
+(* ---------------------------------------------------------------- *)
+(* malformed options of known types: the model against the lenient reference decoder *)
+
+Lemma eta_ri o : set_ri o (o_ri o) = o.  Proof. destruct o; reflexivity. Qed.
+Lemma eta_rd o : set_rdnss o (o_rdnss o) = o.  Proof. destruct o; reflexivity. Qed.
+
+(* the DNSSL options of the list are well formed (their malformed variants are compared with the
+   implementation by the correspondence run only) *)
+Definition dnssl_wf (tl : list (N * N * bytes)) : Prop :=
+  Forall (fun x => match x with (t, l, body) => t = 31 -> decode_opt t l body <> None end) tl.
+
+Lemma opt_step_reject t l body o :
+  1 <= l -> List.length body = (N.to_nat l * 8 - 2)%nat -> opt_reject t l body = true ->
+  opt_step o t (t :: l :: body) = Err EOther.
+Proof.
+  intros Hl Hlen Hr. unfold opt_reject in Hr. apply orb_true_iff in Hr as [Hr|Hr].
+  - apply andb_true_iff in Hr as [Ht Hn]. apply orb_true_iff in Ht as [Ht|Ht]; apply N.eqb_eq in Ht; subst t.
+    + rewrite opt_step_1. unfold lla_unmarshal. change (at_ (1 :: l :: body) 1) with l. rewrite Hn. reflexivity.
+    + rewrite opt_step_2. unfold lla_unmarshal. change (at_ (2 :: l :: body) 1) with l. rewrite Hn. reflexivity.
+  - apply andb_true_iff in Hr as [Ht Hn]. apply N.eqb_eq in Ht. subst t.
+    rewrite opt_step_3. unfold pi_unmarshal. change (at_ (3 :: l :: body) 1) with l.
+    destruct (negb (l =? 4)) eqn:E4; [reflexivity|]. cbn [orb] in Hn. cbn [skipn].
+    unfold at_ at 1. rewrite Hn. reflexivity.
+Qed.
+
+Lemma ri_cond_false l pl prf : 1 <= l ->
+  ((l <=? 3) && (pl <=? 128) && ((pl <=? 64) || (l =? 3)) && ((pl =? 0) || (2 <=? l)) && negb (prf =? 2)) = false ->
+  ri_len_ok l pl = false \/ (ri_len_ok l pl = true /\ prf = 2).
+Proof.
+  intros Hl H. unfold ri_len_ok.
+  destruct (N.eqb_spec prf 2) as [->|Hp].
+  - destruct (if pl =? 0 then _ else _); auto.
+  - left. cbn [negb] in H. rewrite andb_true_r in H.
+    destruct (pl =? 0) eqn:P0.
+    + destruct (l <? 1) eqn:A; [lia|]. destruct (3 <? l) eqn:B; [reflexivity|]. exfalso.
+      apply N.eqb_eq in P0. subst pl.
+      destruct (l <=? 3) eqn:C; [|lia]. cbn in H. discriminate.
+    + destruct (pl <? 65) eqn:P1.
+      * destruct (l =? 2) eqn:A; destruct (l =? 3) eqn:B; try reflexivity; exfalso;
+          (destruct (l <=? 3) eqn:C; [|lia]); (destruct (pl <=? 128) eqn:D; [|lia]);
+          (destruct (pl <=? 64) eqn:E; [|lia]); (destruct (2 <=? l) eqn:F; [|lia]);
+          cbn in H; rewrite ?orb_true_r in H; discriminate.
+      * destruct (pl <? 129) eqn:P2; [|reflexivity].
+        destruct (l =? 3) eqn:B; [|reflexivity]. exfalso.
+        destruct (l <=? 3) eqn:C; [|lia]. destruct (pl <=? 128) eqn:D; [|lia]. destruct (2 <=? l) eqn:F; [|lia].
+        cbn in H. rewrite ?orb_true_r in H. discriminate.
+Qed.
+
+Lemma opt_step_ignored t l body o :
+  1 <= l -> l < 256 -> List.length body = (N.to_nat l * 8 - 2)%nat -> bytes_ok body ->
+  decode_opt t l body = None -> opt_reject t l body = false -> t <> 31 ->
+  opt_step o t (t :: l :: body) = Ok o.
+Proof.
+  intros Hl1 Hl2 Hlen Hok Hd Hr H31. unfold decode_opt in Hd. unfold opt_reject in Hr.
+  destruct (N.eqb_spec t 1) as [->|N1].
+  { destruct (N.eqb_spec l 1) as [->|]; [discriminate|]. cbn in Hr. destruct (l =? 1) eqn:E; [lia|discriminate]. }
+  destruct (N.eqb_spec t 2) as [->|N2].
+  { destruct (N.eqb_spec l 1) as [->|]; [discriminate|]. cbn in Hr. destruct (l =? 1) eqn:E; [lia|discriminate]. }
+  destruct (N.eqb_spec t 5) as [->|N5].
+  { rewrite opt_step_5. unfold mtu_unmarshal. change (at_ (5 :: l :: body) 1) with l.
+    destruct (Z.eqb_spec (Z.of_N l * 8 - 2) 6) as [E|E]; [|reflexivity]. exfalso.
+    assert (l = 1) by lia. subst l. cbn in Hlen.
+    destruct body as [|? [|? [|? [|? [|? [|? [|? ?]]]]]]]; cbn in Hlen; try lia. discriminate. }
+  destruct (N.eqb_spec t 3) as [->|N3].
+  { exfalso. cbn [orb andb] in Hr. change (3 =? 1) with false in Hr. change (3 =? 2) with false in Hr.
+    change (3 =? 3) with true in Hr. cbn [orb andb] in Hr.
+    apply orb_false_iff in Hr as [Hr1 Hr2]. apply negb_false_iff in Hr1. apply N.eqb_eq in Hr1. subst l.
+    cbn in Hlen.
+    destruct body as [|pl [|fl [|v0 [|v1 [|v2 [|v3 [|p0 [|p1 [|p2 [|p3 [|x0 [|x1 [|x2 [|x3 addr]]]]]]]]]]]]]]; cbn in Hlen; try lia.
+    cbn [nth] in Hr2. change (4 =? 4) with true in Hd. destruct (pl <=? 128) eqn:E; [discriminate|]. lia. }
+  destruct (N.eqb_spec t 24) as [->|N24].
+  { destruct body as [|pl [|fl [|t0 [|t1 [|t2 [|t3 pfx]]]]]]; try (cbn in Hlen; lia).
+    match type of Hd with (if ?c then _ else _) = _ => destruct c eqn:E; [discriminate|] end.
+    repeat (apply bytes_ok_cons' in Hok; destruct Hok as [? Hok]).
+    rewrite opt_step_24. unfold ri_unmarshal.
+    change (at_ (24 :: l :: pl :: _) 1) with l. change (at_ (24 :: l :: pl :: _) 2) with pl.
+    change (at_ (24 :: l :: pl :: fl :: _) 3) with fl. rewrite prf_bits by assumption.
+    destruct (ri_cond_false l pl ((fl / 8) mod 4) Hl1 E) as [Hf|[Ht Hp]].
+    - rewrite Hf. cbn [negb bind]. apply f_equal. apply eta_ri.
+    - rewrite Ht, Hp. cbn [negb]. change (2 =? 2) with true. cbv iota. cbn [bind]. apply f_equal. apply eta_ri. }
+  destruct (N.eqb_spec t 25) as [->|N25].
+  { destruct body as [|r0 [|r1 [|t0 [|t1 [|t2 [|t3 addrs]]]]]]; try (cbn in Hlen; lia).
+    destruct ((3 <=? l) && N.odd l) eqn:E; [discriminate|].
+    rewrite opt_step_25. unfold rd_unmarshal. change (at_ (25 :: l :: _) 1) with l. cbn [skipn].
+    destruct (N.eqb_spec (((l - 1) * 8) mod 16) 0) as [Em|Em]; cbn [negb].
+    - assert (Hodd : N.odd l = true).
+      { rewrite N.odd_spec. exists ((l - 1) / 2). 
+        assert (((l-1)*8) mod 16 = 8 * ((l-1) mod 2)) by (replace 16 with (8*2) by reflexivity; rewrite N.mul_comm; rewrite N.mul_mod_distr_l by lia; reflexivity).
+        pose proof (N.div_mod (l-1) 2). lia. }
+      rewrite Hodd, andb_true_r in E. assert (l = 1) by lia. subst l. change ((1 - 1) * 8 / 16 =? 0) with true. cbv iota.
+      cbn [bind]. apply f_equal. apply eta_rd.
+    - cbn [bind]. apply f_equal. apply eta_rd. }
+  destruct (N.eqb_spec t 31) as [->|N31]; [congruence|]. discriminate.
+Qed.
+
+Theorem steps_lenient : forall tl o,
+  tlv_wf tl -> Forall (fun x => bytes_ok (obytes x)) tl -> dnssl_wf tl ->
+  steps o tl = match decode_lenient tl with
+               | Some ds => Ok (fold_left apply1 ds o)
+               | None => Err EOther
+               end.
+Proof.
+  induction tl as [|[[t l] body] r IH]; intros o Hw Hok Hdw; [reflexivity|].
+  destruct Hw as [Hl [Hb Hw]]. inversion Hok as [|? ? Hx Hr]; subst. inversion Hdw as [|? ? Hd1 Hdr]; subst.
+  cbn [obytes] in Hx. apply bytes_ok_cons' in Hx as [Ht Hx]. apply bytes_ok_cons' in Hx as [Hl2 Hx].
+  cbn [steps fst obytes decode_lenient].
+  destruct (opt_reject t l body) eqn:Er.
+  - rewrite (opt_step_reject t l body o Hl Hb Er). reflexivity.
+  - destruct (decode_opt t l body) as [d1|] eqn:E1.
+    + rewrite (opt_step_char t l body d1 o Hl Hl2 Hb Hx E1). rewrite (IH _ Hw Hr Hdr).
+      destruct (decode_lenient r); reflexivity.
+    + rewrite (opt_step_ignored t l body o Hl Hl2 Hb Hx E1 Er); [|intros ->; apply Hd1; auto].
+      rewrite (IH _ Hw Hr Hdr). destruct (decode_lenient r); reflexivity.
+Qed.
+
+Theorem ra_options_lenient p tl :
+  bytes_ok p -> (16 <= List.length p)%nat ->
+  split_tlv (List.length (skipn 16 p)) (skipn 16 p) = Some tl -> dnssl_wf tl ->
+  ra_options p = match ra_decode_lenient p with
+                 | Some d => Ok (fold_left apply1 (ra_opts d) opts_zero)
+                 | None => Err EOther
+                 end.
+Proof.
+  intros Hok Hlen Hs Hdw.
+  destruct p as [|a0 [|a1 [|a2 [|a3 [|a4 [|a5 [|a6 [|a7 [|a8 [|a9 [|a10 [|a11 [|a12 [|a13 [|a14 [|a15 optb]]]]]]]]]]]]]]]];
+    try (cbn [List.length] in Hlen; lia).
+  cbn [skipn] in Hs. unfold ra_decode_lenient. rewrite Hs.
+  pose proof Hs as Hs'. apply split_tlv_wf in Hs' as [Hw Hc].
+  unfold ra_options.
+  destruct optb as [|b0 optb'].
+  - destruct tl as [|[[t l] body] r]; [|discriminate]. reflexivity.
+  - assert (Hb : (blen (a0 :: a1 :: a2 :: a3 :: a4 :: a5 :: a6 :: a7 :: a8 :: a9 :: a10 :: a11 :: a12 :: a13 :: a14 :: a15 :: b0 :: optb') <=? 16) = false).
+    { unfold blen. cbn [List.length]. lia. }
+    rewrite Hb. cbn [skipn]. rewrite Hc.
+    rewrite parse_opts_steps.
+    + rewrite steps_lenient; auto.
+      * destruct (decode_lenient tl); reflexivity.
+      * apply concat_ok. rewrite <- Hc. do 16 (apply bytes_ok_cons' in Hok; destruct Hok as [_ Hok]). exact Hok.
+    + exact Hw.
+    + pose proof (tlv_count tl) as Hn. unfold opts_fuel. simpl List.length in *. clear - Hn. unfold bytes, byte in *. lia.
+Qed.
+
+(* the strict decoder is the lenient one on advertisements without malformed options *)
+Lemma decode_some_not_reject t l body d : decode_opt t l body = Some d -> opt_reject t l body = false.
+Proof.
+  intros H. unfold decode_opt in H. unfold opt_reject.
+  destruct (N.eqb_spec t 1) as [->|N1].
+  { destruct (l =? 1); [reflexivity|discriminate]. }
+  destruct (N.eqb_spec t 2) as [->|N2].
+  { destruct (l =? 1); [reflexivity|discriminate]. }
+  cbn [orb andb].
+  destruct (N.eqb_spec t 3) as [->|N3]; [|reflexivity].
+  destruct body as [|pl [|fl [|v0 [|v1 [|v2 [|v3 [|p0 [|p1 [|p2 [|p3 [|x0 [|x1 [|x2 [|x3 addr]]]]]]]]]]]]]]; try discriminate.
+  destruct ((l =? 4) && (pl <=? 128)) eqn:E; [|discriminate]. apply andb_true_iff in E as [E1 E2].
+  rewrite E1. cbn [negb orb nth andb]. apply N.leb_le in E2. apply N.ltb_ge. exact E2.
+Qed.
+
+Lemma decode_all_lenient : forall tl ds, decode_all tl = Some ds -> decode_lenient tl = Some ds.
+Proof.
+  induction tl as [|[[t l] body] r IH]; intros ds H; cbn [decode_all] in H; [exact H|].
+  destruct (decode_opt t l body) as [d1|] eqn:E1; [|discriminate].
+  destruct (decode_all r) as [dr|] eqn:Er; [|discriminate]. inversion H; subst.
+  cbn [decode_lenient]. rewrite (decode_some_not_reject _ _ _ _ E1), (IH _ eq_refl), E1. reflexivity.
+Qed.
+
+Theorem ra_decode_lenient_extends p d : ra_decode p = Some d -> ra_decode_lenient p = Some d.
+Proof.
+  unfold ra_decode, ra_decode_lenient. intros H.
+  destruct p as [|a0 [|a1 [|a2 [|a3 [|a4 [|a5 [|a6 [|a7 [|a8 [|a9 [|a10 [|a11 [|a12 [|a13 [|a14 [|a15 optb]]]]]]]]]]]]]]]];
+    try discriminate.
+  destruct (split_tlv _ _) as [tl|]; [|discriminate].
+  destruct (decode_all tl) as [os|] eqn:E; [|discriminate]. rewrite (decode_all_lenient _ _ E). exact H.
+Qed.
+
+(* ---------------------------------------------------------------- *)
+(* an option area that cannot be split (truncated option, overrunning length, zero length,
+   trailing byte): the advertisement is rejected, for every byte string *)
+
+Lemma dnssl_no_fuel : forall f rest labels doms, (List.length rest < f)%nat ->
+  dnssl_loop f rest labels doms <> Fuel /\ dnssl_loop f rest labels doms <> Panic.
+Proof.
+  induction f as [|f IH]; intros rest labels doms H; [lia|]. cbn [dnssl_loop].
+  destruct (blen rest <? 2) eqn:E2; [split; discriminate|].
+  destruct (blen rest - 1 <=? at_ rest 0); [split; discriminate|].
+  destruct (at_ rest 0 =? 0); [split; discriminate|].
+  destruct (negb (isascii _)); [split; discriminate|].
+  destruct (has_byte 46 _ || has_byte 32 _); [split; discriminate|].
+  assert (Hl : (List.length (skipn (N.to_nat (at_ rest 0)) (skipn 1 rest)) < List.length rest)%nat).
+  { rewrite !skipn_length. unfold blen in E2. lia. }
+  destruct (at_ (skipn (N.to_nat (at_ rest 0)) (skipn 1 rest)) 0 =? 0).
+  - destruct ((blen _ =? 0) || _); [split; discriminate|]. apply IH. rewrite skipn_length. lia.
+  - apply IH. lia.
+Qed.
+
+Definition benign (r : res new_options) : Prop :=
+  match r with Ok _ => True | Err EOther => True | _ => False end.
+
+Lemma opt_step_benign o t l body : benign (opt_step o t (t :: l :: body)).
+Proof.
+  unfold opt_step.
+  destruct (t =? 1). { unfold lla_unmarshal. destruct (negb _); exact I. }
+  destruct (t =? 2). { unfold lla_unmarshal. destruct (negb _); exact I. }
+  destruct (t =? 5). { unfold mtu_unmarshal. destruct (negb _); exact I. }
+  destruct (t =? 3). { unfold pi_unmarshal. destruct (negb _); [exact I|]. cbn [skipn]. destruct (128 <? _); exact I. }
+  destruct (t =? 24). { unfold ri_unmarshal. destruct (negb _); [exact I|]. destruct (_ =? 2); exact I. }
+  destruct (t =? 25). { unfold rd_unmarshal. destruct (negb _); [exact I|]. destruct (_ =? 0); exact I. }
+  destruct (t =? 31).
+  { unfold ds_unmarshal. destruct (blen _ <? 2); [exact I|]. destruct (negb _); [exact I|].
+    match goal with |- context [dnssl_loop ?f ?v [] []] =>
+      pose proof (dnssl_no_fuel f v [] []) as Hn;
+      assert (Hlt : (List.length v < f)%nat) by (rewrite !skipn_length; lia);
+      destruct (Hn Hlt) as [Hf Hp];
+      destruct (dnssl_loop f v [] []) as [ds|e| |]; try congruence; [|exact I]
+    end.
+    destruct (List.length ds =? 0)%nat; exact I. }
+  exact I.
+Qed.
+
+Lemma unsplit_err : forall fuel b o f, split_tlv fuel b = None ->
+  (List.length b <= fuel)%nat -> (List.length b < f)%nat -> parse_opts f b o = Err EOther.
+Proof.
+  induction fuel as [|fuel IH]; intros b o f Hs Hle Hf.
+  - destruct b; [discriminate|cbn [List.length] in Hle; lia].
+  - cbn [split_tlv] in Hs. destruct f as [|f]; [lia|].
+    destruct b as [|t [|l rest]]; [discriminate|reflexivity|].
+    cbn [parse_opts]. 
+    assert (Hblen : blen (t :: l :: rest) = N.of_nat (List.length rest) + 2) by (unfold blen; cbn [List.length]; lia).
+    rewrite Hblen. destruct (N.of_nat (List.length rest) + 2 <? 2) eqn:E2; [lia|].
+    change (at_ (t :: l :: rest) 1) with l. change (at_ (t :: l :: rest) 0) with t.
+    destruct (N.eqb_spec l 0) as [->|Hl0]; [reflexivity|].
+    destruct (l * 8 =? 0) eqn:E0; [lia|].
+    destruct (List.length rest <? N.to_nat l * 8 - 2)%nat eqn:En.
+    + apply Nat.ltb_lt in En. destruct (N.of_nat (List.length rest) + 2 <? l * 8) eqn:E3; [reflexivity|lia].
+    + apply Nat.ltb_ge in En. destruct (N.of_nat (List.length rest) + 2 <? l * 8) eqn:E3; [lia|].
+      destruct (split_tlv fuel (skipn (N.to_nat l * 8 - 2) rest)) as [r|] eqn:Er; [discriminate|].
+      assert (Hn : N.to_nat (l * 8) = S (S (N.to_nat l * 8 - 2))) by lia.
+      rewrite Hn. cbn [firstn skipn].
+      remember (opt_step o t (t :: l :: firstn (N.to_nat l * 8 - 2) rest)) as R eqn:ER.
+      assert (Hb : benign R) by (rewrite ER; apply opt_step_benign). clear ER.
+      destruct R as [o'|e| |]; cbn [bind benign] in *; try contradiction.
+      * apply (IH _ o' f Er); rewrite skipn_length; cbn [List.length] in *; lia.
+      * destruct e; cbn [benign] in Hb; try contradiction; reflexivity.
+Qed.
+
+Theorem ra_options_unsplittable p : (16 <= List.length p)%nat ->
+  split_tlv (List.length (skipn 16 p)) (skipn 16 p) = None -> ra_options p = Err EOther.
+Proof.
+  intros Hlen Hs. unfold ra_options.
+  destruct (blen p <=? 16) eqn:E.
+  - exfalso. assert (List.length p = 16%nat) by (unfold blen in E; lia).
+    assert (Hk : skipn 16 p = []) by (apply skipn_all2; lia). rewrite Hk in Hs. discriminate.
+  - apply (unsplit_err _ _ _ _ Hs); [lia|]. unfold opts_fuel. rewrite skipn_length. lia.
+Qed.
